@@ -8,6 +8,8 @@ SPEC = {
          "thorough": {"checks": 2500, "shards": 16, "timeout": 3000}},
         {"name": "long-session", "pkg": O4, "kind": "plain", "run": "^TestVerifC06LongSession$",
          "quick": {"shards": 2, "timeout": 300}, "thorough": {"shards": 2, "timeout": 1500}},
+        {"name": "concurrent-handshakes", "pkg": O4, "kind": "plain", "run": "^TestVerifC06ConcurrentHandshakes$",
+         "quick": {"shards": 2, "timeout": 300}, "thorough": {"shards": 8, "timeout": 1500}},
     ],
 }
 
